@@ -52,7 +52,11 @@ type Chan struct {
 
 func (p *Path) ensureSched() *Sched {
 	if p.sched == nil {
-		s := &Sched{p: p, budget: p.w.eng.schedBudget, lifo: p.w.eng.schedLifo}
+		s := &Sched{p: p, budget: p.schedBudget}
+		if p.schedBudget > 0 {
+			// the default order among the other runnable goroutines: FIFO or LIFO (a path decision)
+			s.lifo = p.Choose(2) == 1
+		}
 		g0 := &G{id: 0, wake: make(chan struct{}, 1), name: "main"}
 		s.gs = []*G{g0}
 		s.cur = g0
